@@ -35,7 +35,11 @@ Theorem C15_extended_grid_is_map_Gp : forall (T : Type) (N : Num T) (p q : pgrid
 Proof. exact @pg_extend_grid_is_map_Gp. Qed.
 Print Assumptions C15_extended_grid_is_map_Gp.
 
-(* hence membership (bit-identical, any number system) is equality of indices *)
+(* hence membership (bit-identical, any number system) FOLLOWS FROM membership of the index the function
+   computed among the stored indices.  One direction only; whether that hypothesis holds on doubles is exactly
+   the open question: it is proved over R (C15_rounded_values_are_members), refuted on binary64 for one grid
+   (C15_grid_points_fixed_refuted) and otherwise decided per generated grid by computation -- it is NOT proved
+   for any class of float grids. *)
 Theorem C15_member_iff_index : forall (T : Type) (N : Num T) (d0 : T) (dec : Z) (arr : list T) (p : pgrid) (v : T),
   pg_make N d0 dec arr = Ok p ->
   (In (k_lower N (pg_desc p) v) (map (k_nearest N (pg_desc p)) arr) -> In (round_lower N (pg_desc p) v) (pg_grid p)) /\
@@ -446,6 +450,24 @@ Proof.
 Qed.
 Print Assumptions C15_parabola_history_exact_for_quadratics.
 
+(* ---- the cache key is (trial data state id, grid cell) only: the history theorems are about ONE manifold
+   function per object, a function of (state id, grid value, source, event).  If the function (or what it
+   closes over: eventdata, kwargs) changes while state id and cell stay the same, a hit answers for the OLD
+   function -- on IEEE doubles, grid 1,2,3,..., x = 2.5, F0 = 0, F1 = 1: the object answers 0 for F1 *)
+Theorem C15_cache_key_omits_function_refuted :
+  (exists v0 g0 st v gr st' vf gf stf,
+     lin_call SFNum wit_g wit_F0 wit_idxs None 1 wit_xs = Ok (v0, g0, st) /\
+     lin_call SFNum wit_g wit_F1 wit_idxs st 1 wit_xs = Ok (v, gr, st') /\
+     lin_call SFNum wit_g wit_F1 wit_idxs None 1 wit_xs = Ok (vf, gf, stf) /\
+     v = [sf_zero] /\ vf = [sf_one]) /\
+  (exists v0 g0 st v gr st' vf gf stf,
+     par_call SFNum wit_g wit_F0 wit_idxs None 1 wit_xs = Ok (v0, g0, st) /\
+     par_call SFNum wit_g wit_F1 wit_idxs st 1 wit_xs = Ok (v, gr, st') /\
+     par_call SFNum wit_g wit_F1 wit_idxs None 1 wit_xs = Ok (vf, gf, stf) /\
+     v = [sf_zero] /\ vf = [sf_one]).
+Proof. exact cache_key_omits_function_refuted. Qed.
+Print Assumptions C15_cache_key_omits_function_refuted.
+
 (* ---- PDFSet lookup by the hash of the rounded grid values (every number system).
    h v = hash(frozenset({name: v}.items())) *)
 Theorem C15_pdfset_lookup_finds_grid_pdf : forall (T A : Type) (h : T -> Z) (grid : list T) (pdfs : list A)
@@ -486,13 +508,20 @@ Theorem C15_self_consistent_grid_point_finds_own_pdf : forall (T : Type) (N : Nu
 Proof. exact @self_consistent_grid_point_finds_own_pdf. Qed.
 Print Assumptions C15_self_consistent_grid_point_finds_own_pdf.
 
-(* the guard "ps_build ... = Ok tbl" is needed: distinct grid values can have equal hashes *)
+(* the guard "ps_build ... = Ok tbl" is needed: distinct grid values can have equal hashes.  This is the hash
+   make_dict_hash used BEFORE fix 3d907c5 (CPython's own hash of numbers: hash(-1) = -2); kept as the regression
+   witness.  C15_pdfset_build_ok is the positive counterpart. *)
 Theorem C15_pdfset_build_refuted :
   NoDup [-3; -2; -1; 0]%Z /\
   ps_build cpython_hash_small [] [-3; -2; -1; 0]%Z [0; 1; 2; 3]%nat = Err KeyError /\
   exists tbl, ps_build cpython_hash_small [] [-3; -2; 0; 1]%Z [0; 1; 2; 3]%nat = Ok tbl.
 Proof. exact pdfset_build_refuted. Qed.
 Print Assumptions C15_pdfset_build_refuted.
+
+Theorem C15_pdfset_build_ok : forall (T A : Type) (h : T -> Z) (grid : list T) (pdfs : list A),
+  NoDup (map h grid) -> length grid = length pdfs -> exists tbl, ps_build h [] grid pdfs = Ok tbl.
+Proof. exact @ps_build_ok. Qed.
+Print Assumptions C15_pdfset_build_ok.
 
 (* ---- the guard "origin <= v" of C15_bracket / C15_nearest_half_spacing is needed:
    below the origin astype(int64) truncates towards zero instead of flooring *)
@@ -535,5 +564,31 @@ Example C15_ex_pdfset : exists tbl, ps_build (fun x : Z => x) [] [10; 20; 30]%Z 
 Proof. eexists. repeat split; reflexivity. Qed.
 Example C15_ex_pdfset_hash_collision : ps_build (fun _ : Z => 0%Z) [] [10; 20]%Z [1; 2]%nat = Err KeyError.
 Proof. reflexivity. Qed.
+(* instances: the hypotheses of the main theorems are met by concrete grids / histories *)
+Example C15_ex_bracket_instance : forall erf : R -> R,
+  let g := {| g_lb := IZR 58000000 / IZR (10 ^ 3); g_delta := IZR 1 / IZR (10 ^ 3); g_dec := 3 |} in
+  exists n : Z, (0 <= n)%Z /\ round_lower (RNum erf) g (58000 + 1 / 2000) = g_lb g + IZR n * g_delta g
+                /\ 58000 + 1 / 2000 < round_upper (RNum erf) g (58000 + 1 / 2000).
+Proof.
+  intros erf g.
+  destruct (C15_bracket erf 58000000 1 3 (58000 + 1 / 2000) ltac:(lia) ltac:(lia)) as [n [H0 [H1 [_ [_ [_ [_ H6]]]]]]].
+  - cbn [g_lb]. change (10 ^ 3)%Z with 1000%Z. lra.
+  - exists n. repeat split; assumption.
+Qed.
+Example C15_ex_history_instance : forall (erf : R -> R) (Fm : manifold) (k : nat) r,
+  let g := {| g_lb := IZR 1 / IZR (10 ^ 0); g_delta := IZR 1 / IZR (10 ^ 0); g_dec := 0 |} in
+  nth_error (lin_run (RNum erf) g Fm (fun _ => [(0, 0)%nat; (0, 1)%nat])
+                     None [(1%Z, [3 / 2]); (1%Z, [8 / 5]); (2%Z, [3 / 2]); (2%Z, [5 / 2])]) k = Some r ->
+  exists vg, r = Ok vg.
+Proof.
+  intros erf Fm k r g.
+  apply (C15_linear_history_no_error erf 1 1 0 Fm (fun _ => [(0, 0)%nat; (0, 1)%nat])
+           [(1%Z, [3 / 2]); (1%Z, [8 / 5]); (2%Z, [3 / 2]); (2%Z, [5 / 2])]
+           [fun _ => 3 / 2; fun _ => 8 / 5; fun _ => 3 / 2; fun _ => 5 / 2] 1 ltac:(lia) ltac:(lia) eq_refl).
+  intros k' id xs xof Hc Hx.
+  do 4 (destruct k' as [|k']; [cbn in Hc, Hx; inversion Hc; inversion Hx; subst;
+                              split; [intros s e _; split; [reflexivity|cbn [g_lb]; change (10 ^ 0)%Z with 1%Z; lra]|left; reflexivity]|]).
+  destruct k'; discriminate.
+Qed.
 Example C15_ex_hypotheses : (0 <= 3 <= 16)%Z /\ (0 < 1)%Z /\ IZR 58000000 / IZR (10 ^ 3) <= 58000 + 1 / 2.
 Proof. split; [lia|split; [lia|]]. change (10 ^ 3)%Z with 1000%Z. lra. Qed.
